@@ -198,7 +198,7 @@ def execute(sc):
         faults["dominance_model"] = 1
     if w.get("ploidy", 2) != 2:
         faults["polyploid_population"] = 1
-    if truth.shape != truth_ref.shape or numpy.any(numpy.abs(truth - truth_ref) > 64 * 2.3e-16 * (numpy.abs(dose) @ numpy.abs(numpy.asarray(gm.u_a, dtype=float)) + numpy.abs(beta).sum(0) + (numpy.abs(u_d).sum(0) if u_d is not None else 0.0) + 1.0)):
+    if truth.shape != truth_ref.shape or not numpy.all(numpy.isfinite(truth)) or numpy.any(numpy.abs(truth - truth_ref) > 64 * 2.3e-16 * (numpy.abs(dose) @ numpy.abs(numpy.asarray(gm.u_a, dtype=float)) + numpy.abs(beta).sum(0) + (numpy.abs(u_d).sum(0) if u_d is not None else 0.0) + 1.0)):
         V.append(viol("zero-noise-equals-truth", type(gm).__name__ + ".gegv", "genotypic-value",
                       "genotypic values reported by the model differ from intercept + dosage x effects computed from the allele calls (max deviation %r)" %
                       (float(numpy.abs(truth - truth_ref).max()) if truth.shape == truth_ref.shape else None)))
